@@ -8,7 +8,7 @@ HOOK_COMMITS = ["4ce865f"]
 CHECKS = {
  "C01": ("exploration",
    "runtime monitor: slashability oracle over released signatures of seeded hostile histories (+ record-before-sign assertion at the account boundary)",
-   "Every signature released by the real signer stack over tens of thousands of generated requests (single/batch, by name/by key, duplicate keys, epochs incl. >= 2^63, restarts) is verified cryptographically, attributed to (key, data) and compared pairwise with all earlier releases for that key using the consensus-spec double-vote/surround predicates. Held on the histories explored; not a proof for all histories.",
+   "Every signature released by the real signer stack over tens of thousands of generated requests (single/batch, by name/by key, duplicate keys, epochs incl. >= 2^63, restarts) is verified cryptographically, attributed to (key, data) and compared pairwise with all earlier releases for that key using the consensus-spec double-vote/surround predicates. A wire slice repeats the workload over TLS/gRPC against the real daemon with SIGKILL restarts. Held on the histories explored; not a proof for all histories.",
    "Trusted: the harness's SSZ/signing-root code (cross-checked by verifying Dirk's own signatures), herumi BLS verification, the synthetic account/fetcher standing in for wallet files.",
    "5/C01"),
  "C02": ("exploration",
@@ -18,17 +18,17 @@ CHECKS = {
    "5/C02"),
  "C04": ("exploration",
    "runtime monitor: porcupine linearizability check of concurrent histories recorded at the signer boundary against Dirk's learned sequential semantics; slashability oracle; race detector; hook-steered overlaps",
-   "Short, heavily contended concurrent histories (single and batch requests over 3 shared keys) are recorded at the signer.Service boundary with call/return stamps and, together with a final state read, checked by porcupine against an unpartitioned multi-key model whose step function is the real rules' single-threaded behaviour. A verifhook handler parks requests between their read and write while a rival is in flight so that broken locking becomes an overlap. The same workload runs under the Go race detector. Held on the interleavings observed (thousands of overlapping same-key pairs per run), not on all schedules.",
+   "Short, heavily contended concurrent histories (single and batch requests over 3 shared keys) are recorded at the signer.Service boundary with call/return stamps and, together with a final state read, checked by porcupine against an unpartitioned multi-key model whose step function is the real rules' single-threaded behaviour. A verifhook handler parks requests between their read and write while a rival is in flight so that broken locking becomes an overlap. Some requests are abandoned by their client (context cancelled) exactly between their read and their write; a FAILED/UNKNOWN answer is modelled as an indeterminate operation that stays open (nondeterministic porcupine model). A wire slice records histories over TLS/gRPC against the real daemon and takes the final reads from its database after it stops. The same workload runs under the Go race detector. Held on the interleavings observed (thousands of overlapping same-key pairs per run), not on all schedules.",
    "Trusted: porcupine v1.3.0; the learned table (real code run sequentially); monotonic clock stamps taken outside the call.",
    "5/C04"),
  "C05": ("exploration",
    "runtime monitor: domain-type / admin-IP oracle over all five signing endpoints at service and handler boundaries",
-   "Thousands of requests covering endpoint x domain-type class (incl. look-alikes and lengths != 32 over the wire) x admin-IP list x source address class x batch position; the monitor asserts that generic/multi never return a signature under attester/proposer types (nor one that verifies under them), exits only from listed addresses, and that the protected endpoints refuse foreign types without touching stored state.",
+   "Thousands of requests covering endpoint x domain-type class (incl. look-alikes and lengths != 32 over the wire) x admin-IP list x source address class x batch position; a wire slice drives the real daemon with server.rules.admin-ips set while the client binds different loopback source addresses (real SourceIP interceptor); the monitor asserts that generic/multi never return a signature under attester/proposer types (nor one that verifies under them), exits only from listed addresses, and that the protected endpoints refuse foreign types without touching stored state.",
    "Trusted: harness signing-root code; the IP in the credentials stands in for the SourceIP interceptor at the in-process boundary.",
    "5/C05"),
  "C08": ("exploration",
    "runtime monitor: independent BLS verification of every returned signature over harness-computed signing roots, across batch sizes x GOMAXPROCS; race detector on batch paths",
-   "Every signature returned for well-formed random requests (single and batches of 24 sizes from 1 to 511, GOMAXPROCS 1..61, service and handler boundary, by name/key/over-long key) is verified with herumi directly under the addressed account's key over a signing root computed by the harness's own SSZ code, and must not verify under a neighbouring account of the batch; response lengths must equal request lengths. Batch paths also run under the race detector.",
+   "Every signature returned for well-formed random requests (single and batches of 24 sizes from 1 to 511, GOMAXPROCS 1..61, service and handler boundary, by name/key/over-long key) is verified with herumi directly under the addressed account's key over a signing root computed by the harness's own SSZ code, and must not verify under a neighbouring account of the batch; response lengths must equal request lengths; batches also carry marker entries (attestations no rule can approve) whose positions must keep their own negative verdict. Batch paths also run under the race detector.",
    "Trusted: harness SSZ code, herumi VerifyByte.",
    "5/C08"),
  "C09": ("exploration",
@@ -38,7 +38,7 @@ CHECKS = {
    "5/C09"),
  "C03": ("fault_enumeration",
    "crash-point enumeration by self-SIGKILL at verifhook/Sign/Reply points + restart verification and conflicting-twin probes; random external kills; strace-based ordering check of value-log writes vs SIGN/REL events",
-   "For each script every (crash point, hit number) reached by a dry run is enumerated: a child process kills itself there, a fresh process reopens the directory, checks every SIGN/REL line logged before the kill against the reopened store, probes a conflicting twin of every released duty and continues towards further kills. Random parent-side SIGKILLs cover instants between hooks. One run under strace must show, for every SIGN/REL, an already completed write of exactly that record to a value log opened O_DSYNC (or fsync-ed). The in-process record-before-sign assertion also runs in C01/C02. Crash points are exhaustive at hook granularity for the scripts used, not for all histories.",
+   "For each script every (crash point, hit number) reached by a dry run is enumerated: a child process kills itself there, a fresh process reopens the directory, checks every SIGN/REL line logged before the kill against the reopened store, probes a conflicting twin of every released duty and continues towards further kills. Random parent-side SIGKILLs cover instants between hooks; a wire variant SIGKILLs the real daemon at random instants while clients sign over TLS/gRPC and probes, after restart, a conflicting twin of every duty whose signature a client had received. One run under strace must show, for every SIGN/REL, an already completed write of exactly that record to a value log opened O_DSYNC (or fsync-ed). The in-process record-before-sign assertion also runs in C01/C02. Crash points are exhaustive at hook granularity for the scripts used, not for all histories.",
    "SIGKILL keeps the page cache, so durability itself is decided on the syscall stream (the kernel was asked for synchronous durability before release); real power loss is out of reach.",
    "5/C03"),
  "C06": ("fault_enumeration",
@@ -48,7 +48,7 @@ CHECKS = {
    "5/C06"),
  "C07": ("exploration",
    "differential monitor: real static checker vs reference permission model over generated tables and engineered names; service-level carried-out => allowed oracle",
-   "300+ generated permission tables x 400 queries each compare Check() with a literal transcription of the statement (ordered entries, whole-name case-insensitive matching incl. alternation/own anchors, ordered operation lists). A sample of tables is mounted on a real stack and every operation through signer (by name, key, over-long key), lister and wallet manager is judged: carried out only if the model allows it for the resolved account; refused requests leave slashing state and lock flags unchanged.",
+   "300+ generated permission tables x 400 queries each compare Check() with a literal transcription of the statement (ordered entries, whole-name case-insensitive matching incl. alternation/own anchors, ordered operation lists). A sample of tables is mounted on real stacks and every operation through signer (by name, key, over-long key), lister, wallet manager, account manager (lock/unlock) and account creation (process service and handlers, real wallets) is judged: carried out only if the model allows it for the resolved account; refused requests leave slashing state and lock flags unchanged.",
    "The model uses Go regexp for matching (anchoring and grouping are its own).",
    "5/C07"),
  "C10": ("exploration",
@@ -68,7 +68,7 @@ CHECKS = {
    "5/C15"),
  "C12": ("exploration",
    "runtime monitor: DKG consistency oracle over real multi-instance generations (all (n,t), id sets, initiators, commit arrival orders, tampered replies, retry after partial commit)",
-   "Real key generations on in-process clusters of real instances (real wallets, receiver handlers, process services; a routing sender replaces the transport) for every n in 2..7 and every t in 0..n+1; after each success the accounts are read back from every participant's store and checked (composite = returned key, same vector of t entries, threshold, participants, share consistent), every participant signs and lists without restart, all t-subsets recover and (t-1)-subsets do not; out-of-range t must be refused and create nothing; tampered commit replies and a retry after a partially committed attempt must never yield an inconsistent success.",
+   "Real key generations on in-process clusters of real instances (real wallets, receiver handlers, process services; a routing sender replaces the transport) for every n in 2..7 and every t in 0..n+1; after each success the accounts are read back from every participant's store and checked (composite = returned key, same vector of t entries, threshold, participants, share consistent), every participant signs and lists without restart, all t-subsets recover and (t-1)-subsets do not; out-of-range t must be refused and create nothing; tampered commit replies and a retry after a partially committed attempt must never yield an inconsistent success. A wire variant runs generations on three real daemons (127.0.0.1-3, certificates generated at run time) through AccountManager.Generate.",
    "herumi polynomial evaluation / recovery used by the oracle; transport replaced in-process.",
    "5/C12"),
  "C13": ("fault_enumeration",
